@@ -1,9 +1,10 @@
-\* C03 thorough (replay 1): 3 threads; instances new(), new(), shared(), shared() (storages 1,2,0,0); property maps {a:1},{a:2,b:1}; all kinds and forms;
+\* C03 thorough (replay 1): 3 threads; instances default(), default(), setup()-built, shared(), shared(); property maps {a:1},{a:2,b:1}; all kinds and forms;
 \* <= 2 frames, 2 tasks (interleaved polls on one thread, tasks polled on different threads), nesting <= 2, panic unwinding; every transition replayed.
 SPECIFICATION Spec
 CONSTANTS
     NThreads = 3
-    StoreOf <- MC_Store4
+    StoreOf <- MC_StoreQ
+    InstKind <- MC_KindQ
     NKeys = 2
     PropChoices <- MC_Props2
     Kinds <- MC_AllKinds
